@@ -296,6 +296,9 @@ class MArr(_ModelObject):
                 return MArr((k,), {k: n}, lambda idx, k=k: z3.ToReal(idx[k]), name=k,
                             tok=("range", k))
             raise KeyError(k)
+        if isinstance(k, dict):
+            # xarray: da[{dim: indexer}] is positional indexing by dimension name (= isel)
+            return self.isel(k)
         raise EngineUnsupported(f"MArr.__getitem__({k!r})")
 
     def __setitem__(self, k, v):
@@ -680,6 +683,11 @@ class MArr(_ModelObject):
 
     def weighted(self, w):
         return _Weighted(self, w)
+
+    def astype(self, dtype, **kw):
+        if dtype not in (float, "float64", "float"):
+            raise EngineUnsupported(f"astype({dtype!r})")
+        return self
 
 
 class PrefixSum:
@@ -1155,6 +1163,64 @@ class NPModel(metaclass=_ModelNamespace):
         n = a.shape[0]
         m = mk_int(_sz(n) - 1)
         return NArr((m,), lambda p: a._elem((p[0] + 1,)) - a._elem((p[0],)), a.labels, a.dask)
+
+    # -- elementwise spellings of the operators (so that `np.subtract(a, b)` for `a - b` and the like stay decidable) --
+    @staticmethod
+    def add(a, b):
+        return a + b
+
+    @staticmethod
+    def subtract(a, b):
+        return a - b
+
+    @staticmethod
+    def multiply(a, b):
+        return a * b
+
+    @staticmethod
+    def divide(a, b):
+        return a / b
+
+    true_divide = divide
+
+    @staticmethod
+    def negative(a):
+        return -a
+
+    @staticmethod
+    def asarray(a, dtype=None):
+        if not isinstance(a, NArr):
+            raise EngineUnsupported(f"np.asarray of {type(a).__name__}")
+        return a
+
+    asanyarray = asarray
+
+    @staticmethod
+    def flip(a, axis=None):
+        if axis is None or not isinstance(axis, int):
+            raise EngineUnsupported("np.flip without a single integer axis")
+        k = [slice(None)] * a.ndim
+        k[axis] = slice(None, None, -1)
+        return a[tuple(k)]
+
+    @staticmethod
+    def where(cond, a, b):
+        if not isinstance(cond, BArr):
+            raise EngineUnsupported("np.where on a non-boolean-array condition")
+
+        def el(x, p):
+            return x._elem(p) if isinstance(x, NArr) else RVx(x)
+        shape = a.shape if isinstance(a, NArr) else (b.shape if isinstance(b, NArr) else cond.shape)
+        lab = a.labels if isinstance(a, NArr) else (b.labels if isinstance(b, NArr) else None)
+        return NArr(shape, lambda p: z3.If(cond._elem(p), el(a, p), el(b, p)), lab, None)
+
+    @staticmethod
+    def zeros_like(a, dtype=None):
+        return NArr(a.shape, lambda p: z3.RealVal(0), a.labels, a.dask)
+
+    @staticmethod
+    def ones_like(a, dtype=None):
+        return NArr(a.shape, lambda p: z3.RealVal(1), a.labels, a.dask)
 
     @staticmethod
     def full_like(a, fill, dtype=None):
